@@ -156,15 +156,18 @@ Definition outputs_spec (ops : list (Z * Z)) (known : list Z) : option (list Z) 
    604 a call that got no response did not fail with a time-out, or disturbed other pending calls
    605 the outputs lookup did not return, per outpoint and in order, that outpoint's value (or an error when it must)
    606 a call reported a result although nothing answered it
-   607 a response reached a request on a connection that is not accepted *)
+   607 a response reached a request on a connection that is not accepted
+   609 a call's message was written to the connection before its request was registered (a reply
+       routed before the caller resumes would find nobody) *)
 Definition step16 (s : m16) (o : op) (ob : obs) : Z * m16 :=
   match o, ob with
   | OSession, _ => (0, M16 (r_live s) (r_n s) (r_res s) false)
   | OAccept _, [_; acc; _; _] => (0, M16 (r_live s) (r_n s) (r_res s) (negb (acc =? 0)))
   | OPend kind key, [_; h] =>
       (0, M16 (r_live s ++ [Live h kind (if kind =? 7 then 0 else key) false false]) (r_n s + 1) (r_res s) (r_acc s))
-  | OCall kind key short, [_; h; sk; skey] =>
-      ((if (sk =? kind) && (skey =? (if kind =? 7 then -1 else key)) then 0 else 601),
+  | OCall kind key short, [c; h; sk; skey] =>
+      ((if c =? -6 then 609 else
+        if (sk =? kind) && (skey =? (if kind =? 7 then -1 else key)) then 0 else 601),
        M16 (r_live s ++ [Live h kind (if kind =? 7 then 0 else key) true short]) (r_n s + 1) (r_res s) (r_acc s))
   | OUnpend h, _ :: tail =>
       let l' := filter (fun x => l_h x ≠ h) (r_live s) in
